@@ -165,7 +165,9 @@ pub fn execute(
         println!("sub={}", sink.cur_sub);
         let _ = std::io::stdout().flush();
     }
+    crate::wedge::enter(plan, sink.property, sink.cur_job, sink.cur_sub);
     let out = run_plan(plan);
+    crate::wedge::leave();
     let mut pr = Vec::new();
     let mut v = scn.check(plan, &out, &mut pr);
     for p in pr {
@@ -349,9 +351,12 @@ pub struct WorkReq {
 
 impl WorkReq {
     pub fn bytes(&self) -> Vec<u8> {
+        // Handlers of odd nonces that do real work drop their request context
+        // early (flag bit 0): a server must not depend on handlers holding it.
+        let flags = if self.nonce % 2 == 1 && self.steps > 0 { 1 } else { 0 };
         let xs = format!(
-            "{};{};{};{};{}",
-            self.nonce, self.steps, self.step_ms, self.panic_at, self.resp_bytes
+            "{};{};{};{};{};{}",
+            self.nonce, self.steps, self.step_ms, self.panic_at, self.resp_bytes, flags
         );
         let headers = vec![hdr("host", "sim"), hdr("x-sim", &xs)];
         match &self.body {
